@@ -82,7 +82,10 @@ pub fn encode(s: &str) -> String {
 /// an owned copy of the error renders identically.
 pub fn render_obs(c: &RenderCase) -> String {
     let r = std::panic::catch_unwind(std::panic::AssertUnwindSafe(|| {
-        let m = ColumnMetrics::new().with_line_ending(c.le).with_tab_width(c.tab);
+        let mut m = ColumnMetrics::new();
+        // the defaults are left to the library (see gen::metrics)
+        if c.le != LineEnding::Lf { m = m.with_line_ending(c.le); }
+        if c.tab != 4 { m = m.with_tab_width(c.tab); }
         let mut source = SourceText::new(c.text.as_str()).with_column_metrics(m);
         if c.named {
             source = source.with_name("src");
